@@ -588,6 +588,11 @@ func (c *Context) doKill(message *vivid.OnKill, behavior vivid.Behavior) {
 	for _, child := range c.children {
 		c.Logger().Debug("notify child kill", log.String("path", child.GetPath()))
 		c.Kill(child, message.Poison, message.Reason)
+		if message.Poison {
+			// 优雅终止以普通消息下发，邮箱被挂起（例如子 Actor 已故障、其监管决策尚未作出或已被升级）的子 Actor 无法处理该消息，
+			// 父 Actor 将永远等待其终止；此处随 Kill 一并恢复其邮箱，使其排空积压消息后处理 Kill
+			c.tell(true, child, messages.CommandResumeMailbox.Build())
+		}
 	}
 
 	// 宣告自己进入死亡中
